@@ -11,6 +11,7 @@ integrity P04_*) of spec/Pipeline.tla."""
 import errno
 
 from checks import chan_common as cc
+from checks import chan_random
 from checks import chan_model
 
 LEVEL = "model_checking"
@@ -78,6 +79,7 @@ def run(chk, replay=None):
     chan_model.model_check(chk, "C12", scns)
     n_pct, dfs = (800, 3000) if chk.thorough else (80, 400)
     cc.explore_and_validate(chk, "C12", scns, n_pct, dfs, bound=2, label="watermark")
+    chan_random.explore(chk, "C12")
     chk.rule = ("cases = schedules of one producing worker + draining I/O thread over %d scenarios (watermark/send_bytes incl. 0 and 1, write sizes below/at/above the mark, "
                 "partial drains, stall, disconnect); evaluations = distinct traces judged by TLC" % len(scns))
     chk.assumptions += ["pending output = max value ever stored in total_outbufs_len; one write = largest payload handed to write_soon", "simulated kernel"]
